@@ -10,7 +10,7 @@ LEVEL = "exploration"
 RULE = ("inputs (<= 4 kB of UTF-8) come from (a) a generator DERIVED AT RUN TIME from the working tree's grammar.pest (every "
         "production, types ignored, identifiers biased toward names already used so that many inputs pass name resolution), (b) "
         "token-level mutation (delete / insert / duplicate / swap / replace by a grammar terminal, 1-4 edits) of the example "
-        "corpus and of well-typed generated programs, (c) near-miss TYPE PAIRS: a random type T (primitives, open and fixed-shape lists, maps, optionals, function types, classes, aliases; depth <= 3), a type one structural edit away from it, and a value of the second supplied where the first is wanted (declaration, argument, re-assignment, return, `or` fallback, field, element, map value, comparison, index), (d) an enumerated family of boundary shapes (deep nesting of every "
+        "corpus and of well-typed generated programs, (c) near-miss TYPE PAIRS: a random type T (primitives, open and fixed-shape lists, maps, optionals, function types, classes, aliases; depth <= 3), a type one structural edit away from it, and a value of the second supplied where the first is wanted (declaration, argument, re-assignment, return, `or` fallback, field, element, map value, comparison, index), (d) an enumerated import matrix (form x target file x imported names x context, compiled next to helper modules), (e) an enumerated family of boundary shapes (deep nesting of every "
         "bracketing construct, long operator chains, huge literals, unterminated tokens, import of odd paths). Oracle: `mscript "
         "compile f.ms --quick` exits 0, or exits 1 with diagnostics; exit 101 / a signal / a reproducible watchdog hit is a "
         "violation. Non-trivial = the input gets past the parser (no syntax diagnostic); distinct by input text")
@@ -57,8 +57,14 @@ def screen(text):
     return b.decode("utf-8", "ignore")
 
 
+# every input is compiled next to two small modules, so that imports of existing files (with exported, private and missing
+# names) are part of the input space
+HELPER_LIB = "print \"lib\"\nhidden = 3\nexport shown: int = 1\nexport const fixed: int = 2\nexport mk: fn() -> int = fn() -> int {\n\treturn hidden\n}\nexport class Pt {\n\tx: int\n\tconstructor(self) {\n\t\tself.x = 1\n\t}\n}\nexport type Num int\n"
+HELPER_BAD = "x = = 1\n"
+
+
 def make_scenario(text):
-    return {"files": {"p/q/r/f.ms": text}, "cwd": "p/q/r",
+    return {"files": {"p/q/r/f.ms": text, "p/q/r/lib.ms": HELPER_LIB, "p/q/r/sub/deep.ms": "export d: int = 4\n", "p/q/r/broken.ms": HELPER_BAD}, "cwd": "p/q/r",
             "steps": [{"id": "compile", "argv": ["mscript", "compile", "f.ms", "--quick"], "timeout": 10.0}],
             "asserts": [{"kind": "c16_total", "step": "compile"}]}
 
@@ -66,6 +72,9 @@ def make_scenario(text):
 @scenario.assert_kind("c16_total")
 def a_total(a, res, ctx):
     r = res[a["step"]]
+    if "panicked at" in r.stderr or "has overflowed its stack" in r.stderr:
+        # an internal panic is a violation whatever exit status the process ends with
+        return "compiler died: internal panic (exit class %s, code %s): %r" % (r.klass, r.code, r.stderr[-400:])
     if r.klass == "ok":
         return None
     if r.klass == "error":
@@ -91,7 +100,7 @@ def max_nesting(text):
 
 def signature(res, text=""):
     r = res["compile"]
-    if r.klass == "panic":
+    if r.klass == "panic" or "panicked at" in r.stderr:
         m = PANIC_AT.search(r.stderr)
         if m:
             where = m.group(1).split("/src/")[-1]
@@ -136,6 +145,23 @@ def boundary_inputs():
         out.append(("dot-chain-%d" % d, "class A { fn me(self) -> Self { return self } }\na = A()\nb = a" + ".me()" * d + "\n"))
         out.append(("index-chain-%d" % d, "const a = [1]\nb = a" + "[0]" * d + "\n"))
         out.append(("else-if-chain-%d" % d, "x = 1\nif x == 0 { }" + " else if x == 1 { }" * d + "\n"))
+    # chains that nest without brackets (right-recursive parsing / AST building), at the 4 kB limit
+    out += [("or-chain-4k", "o: int? = nil\nx = (o)" + " or (o)" * 570 + " or 1\n"), ("add-chain-4k", "x = " + "1 + " * 1010 + "1\n"),
+            ("strcat-chain-4k", "x = \"a\"" + " + \"b\"" * 680 + "\n"), ("and-chain-4k", "x = true" + " && true" * 500 + "\n"),
+            ("neg-chain-4k", "x = " + "-" * 3900 + "1\n"), ("get-chain-4k", "o: int? = 1\nx = " + "get " * 900 + "o\n"),
+            ("dot-chain-4k", "class A { fn me(self) -> Self { return self } }\na = A()\nb = a" + ".me()" * 780 + "\n"),
+            ("index-chain-4k", "const a = [1]\nb = a" + "[0]" * 1300 + "\n"), ("fn-nest-250", "x = " + "fn() { return " * 250 + "1" + " }" * 250 + "\n"),
+            ("else-if-chain-4k", "x = 1\nif x == 0 { }" + " else if x == 1 { }" * 210 + "\n")]
+    # unclosed runs of every opening token: a failed operand must not be parsed again at every level
+    for d in (20, 40, 400):
+        for name, tok, pre in (("list", "[", "x = "), ("paren", "(", "x = "), ("block", "if true {", ""), ("index", "[", "const a = [1]\nb = a"), ("call", "f(", "f = fn(a: int) -> int { return a }\ny = "),
+                               ("type-list", "[", "x: "), ("fn-type", "fn(", "x: "), ("map-type", "map[str, ", "x: "), ("neg-list", "-[", "x = "), ("typeof-list", "typeof [", "x = "),
+                               ("list-comma", "[1, ", "x = "), ("map-literal", "map[str, int] {\"k\": ", "x = ")):
+            out.append(("unclosed-%s-%d" % (name, d), pre + tok * min(d, 4000 // len(tok)) + "\n"))
+    for d in (257, 1200, 2000):
+        out.append(("paren-depth-%d" % d, "x = " + "(" * d + "1" + ")" * d + "\n"))
+        out.append(("list-depth-%d" % d, "const x = " + "[" * d + "1" + "]" * d + "\n"))
+        out.append(("block-depth-%d" % d, "if true {" * min(d, 450) + "}" * min(d, 450) + "\n"))
     out += [("huge-int", "x = " + "9" * 400 + "\n"), ("huge-float", "x = " + "9" * 400 + "." + "9" * 400 + "\n"), ("huge-byte", "x = 0b" + "1" * 300 + "\n"),
             ("huge-bigint", "x = B" + "9" * 300 + "\n"), ("hex-overflow", "x = 0x" + "F" * 64 + "\n"), ("unterminated-string", "x = \"abc\n"),
             ("unterminated-block-comment", "### never closed\nx = 1\n"), ("lonely-backslash", "x = \"a\\\"\n"), ("bad-escape", "x = \"a\\qb\"\n"),
@@ -183,13 +209,31 @@ def matrix_inputs():
     return out
 
 
+def import_inputs():
+    """(import form) x (target: existing module, the file itself, a sub-directory module, a file that does not parse, a missing
+    file, a directory) x (names: exported / private / undeclared / a type / a class / twice) x (context: top level, function,
+    method, if, else, loop, closure in a loop)"""
+    out = []
+    stmts = []
+    for target in ("lib", "f", "sub/deep", "broken", "nothere", "sub", "./lib", "sub/../lib"):
+        stmts.append("import %s" % target)
+        for names in ("shown", "hidden", "nosuch", "shown, fixed", "shown, nosuch", "shown, shown", "mk, hidden", "Pt", "type Num", "type Nosuch", "type Num, shown", "d", "f"):
+            stmts.append("import %s from %s" % (names, target))
+    use = "print 1"
+    ctxs = {"top": "%s\n" + use + "\n", "fn": "w = fn() {\n\t%s\n\t" + use + "\n}\nw()\n", "method": "class W {\n\tfn go(self) {\n\t\t%s\n\t}\n}\n",
+            "if": "if true {\n\t%s\n}\n", "else": "if false {\n} else {\n\t%s\n}\n", "loop": "from 0 to 2 {\n\t%s\n}\n",
+            "closure-in-loop": "from 0 to 2 {\n\tw = fn() {\n\t\t%s\n\t}\n}\n", "after-use": "print shown\n%s\n"}
+    for st_ in stmts:
+        for cn, tmpl in ctxs.items():
+            out.append(("import:%s:%s" % (cn, st_.split(" from ")[0].replace("import ", "")[:12]), tmpl % st_))
+    return out
+
+
 def enumerated(tier, seed):
     cases = [{"family": "boundary:" + n, "text": t} for n, t in boundary_inputs()]
+    cases += [{"family": n, "text": t} for n, t in import_inputs()]
+    cases += [{"family": n, "text": t} for n, t in typepair_matrix()]
     cases += [{"family": n, "text": t} for n, t in matrix_inputs()]
-    if tier == "thorough":
-        for d in (1200, 2000):
-            cases.append({"family": "boundary:paren-depth-%d" % d, "text": "x = " + "(" * d + "1" + ")" * d + "\n"})
-            cases.append({"family": "boundary:list-depth-%d" % d, "text": "const x = " + "[" * d + "1" + "]" * d + "\n"})
     return cases
 
 
@@ -369,6 +413,57 @@ def gen_typepairs(g):
         else:
             out.append("%s: %s = %s\n%si = %s[%s]" % (n, tt, v1, n, n, g.choice(["0", "1", "5", "-1", "\"k\"", "true"])))
     return "\n".join(out) + "\n"
+
+
+def near_all(t):
+    """every single structural edit of t (deterministic counterpart of near())"""
+    P = lambda n: ("prim", n)
+    subs = [P("int"), P("str"), P("bool")]
+    k = t[0]
+    out = []
+    if k in ("prim", "class", "alias"):
+        out += [x for x in subs if x != t] + [("opt", t), ("open", t), ("fixed", [t, P("str")]), ("class", "Ka")]
+    elif k in ("open", "opt"):
+        out += [(k, x) for x in near_all(t[1])[:3]] + [t[1], ("fixed", [t[1]]), ("fixed", [t[1], t[1]])]
+    elif k == "fixed":
+        for i in range(len(t[1])):
+            for x in subs:
+                if x != t[1][i]:
+                    out.append(("fixed", [x if j == i else y for j, y in enumerate(t[1])]))
+            out.append(("fixed", [y for j, y in enumerate(t[1]) if j != i]))
+            out.append(("fixed", t[1][:i] + [P("bool")] + t[1][i:]))
+        out.append(("fixed", t[1] + [P("int")]))
+        out.append(("fixed", t[1][:1]))
+        if t[1]:
+            out.append(("open", t[1][0]))
+    elif k == "map":
+        out += [("map", P("int"), t[2]), ("map", t[1], P("bool")), ("map", t[1], ("opt", t[2])), ("open", t[2])]
+    elif k == "fn":
+        out += [("fn", t[1], P("str")), ("fn", t[1], None), ("fn", t[1] + [P("int")], t[2]), ("fn", t[1][:-1], t[2]) if t[1] else ("fn", [P("bool")], t[2]),
+                ("fn", [P("str")] + t[1][1:], t[2]) if t[1] else ("fn", [], P("bool"))]
+    return out
+
+
+def typepair_matrix():
+    """a fixed catalogue of types x every single structural edit x four typed positions (one mismatch per input)"""
+    P = lambda n: ("prim", n)
+    base = [P("int"), P("str"), P("float"), ("open", P("int")), ("open", ("open", P("str"))), ("opt", P("int")), ("opt", ("open", P("int"))),
+            ("fixed", [P("int"), P("str")]), ("fixed", [P("int"), P("str"), P("bool")]), ("fixed", [P("int"), ("open", P("str")), P("bool"), P("int")]), ("fixed", []),
+            ("fixed", [("fixed", [P("int"), P("str")]), P("bool")]), ("map", P("str"), P("int")), ("map", P("str"), ("open", P("int"))),
+            ("fn", [P("int")], P("int")), ("fn", [], None), ("fn", [P("int"), P("str")], ("opt", P("int"))), ("class", "Ka"), ("alias", "Num"), ("opt", ("class", "Kb"))]
+
+    class D:          # deterministic stand-in for the draw helper used by value_text
+        chance = staticmethod(lambda pct: False)
+        int = staticmethod(lambda lo, hi: min(hi, max(lo, 2)))
+    out = []
+    for t in base:
+        tt = type_text(t)
+        for t2 in near_all(t):
+            v2, v1 = value_text(D, t2), value_text(D, t)
+            for pos, body in (("decl", "const w: %s = %s" % (tt, v2)), ("arg", "w = fn(p: %s) {\n}\nw(%s)" % (tt, v2)),
+                              ("return", "w = fn() -> %s {\n\treturn %s\n}" % (tt, v2)), ("reassign", "const c0: %s = %s\nw: %s = %s\nw = %s" % (tt, v1, tt, v1, v2))):
+                out.append(("typepair-matrix:" + pos, TYPEPAIR_PRE + body + "\n"))
+    return out
 
 
 def special_idents():
